@@ -26,17 +26,18 @@ import (
 
 // Case is the replayable description of one case of any sub-check.
 type Case struct {
-	Kind    string       `json:"kind"`
-	GCS     *GCSCase     `json:"gcs,omitempty"`
-	Large   *LargeCase   `json:"large,omitempty"`
-	Trunc   *TruncCase   `json:"trunc,omitempty"`
-	Basic   *BasicCase   `json:"basic,omitempty"`
-	Bloom   *BloomCase   `json:"bloom,omitempty"`
-	Murmur  *MurmurCase  `json:"murmur,omitempty"`
-	MatchTx *MatchTxCase `json:"matchtx,omitempty"`
-	Merkle  *MerkleCase  `json:"merkle,omitempty"`
-	Cascade *CascadeCase `json:"cascade,omitempty"`
-	CfIndex *CfIndexCase `json:"cfindex,omitempty"`
+	Kind       string          `json:"kind"`
+	GCS        *GCSCase        `json:"gcs,omitempty"`
+	Large      *LargeCase      `json:"large,omitempty"`
+	Trunc      *TruncCase      `json:"trunc,omitempty"`
+	Basic      *BasicCase      `json:"basic,omitempty"`
+	Bloom      *BloomCase      `json:"bloom,omitempty"`
+	Murmur     *MurmurCase     `json:"murmur,omitempty"`
+	MatchTx    *MatchTxCase    `json:"matchtx,omitempty"`
+	Merkle     *MerkleCase     `json:"merkle,omitempty"`
+	Cascade    *CascadeCase    `json:"cascade,omitempty"`
+	CfIndex    *CfIndexCase    `json:"cfindex,omitempty"`
+	BuilderOps *BuilderOpsCase `json:"builder_ops,omitempty"`
 }
 
 // finding is one failed expectation of a case: class is the stable violation key.
@@ -74,6 +75,8 @@ func runCase(c *Case) (fs []finding) {
 		return runCascade(c.Cascade)
 	case "cfindex":
 		return runCfIndex(c.CfIndex)
+	case "builder-ops":
+		return runBuilderOps(c.BuilderOps)
 	}
 	return []finding{{"harness/unknown-kind", c.Kind}}
 }
@@ -175,7 +178,7 @@ func main() {
 		name string
 		f    func(*ev.Run, map[string]interface{})
 	}{
-		{"gcs", checkGCS}, {"gcs_large", checkLarge}, {"gcs_trunc32", checkTrunc}, {"basic_filter", checkBasic}, {"cfindex", checkCfIndex},
+		{"gcs", checkGCS}, {"gcs_large", checkLarge}, {"gcs_trunc32", checkTrunc}, {"basic_filter", checkBasic}, {"cfindex", checkCfIndex}, {"builder_ops", checkBuilderOps},
 		{"murmur3", checkMurmur}, {"bloom", checkBloom}, {"match_tx", checkMatchTx}, {"merkle", checkMerkle}, {"merkle_cascade", checkCascade},
 	} {
 		t0 := time.Now()
